@@ -314,6 +314,10 @@ def parse_place(s):
         return l, p + [("cindex", int(m.group(2)))]
     if s.startswith("(") and s.endswith(")"):
         inner = s[1:-1]
+        m = re.match(r"^(.*) as (\w+)$", inner)
+        if m and m.group(1).count("(") == m.group(1).count(")") and (m.group(1).startswith("(") or re.match(r"^_\d+$", m.group(1))):
+            l, p = parse_place(m.group(1))
+            return l, p + [("downcast", m.group(2))]
         if inner.startswith("*"):
             l, p = parse_place(inner[1:])
             return l, p + [("deref",)]
@@ -596,6 +600,11 @@ class Ctx:
             raise Unsupported("read of unassigned local _%d in %s" % (l, fr["fn"].name))
         v = fr["vals"][l]
         for pr in proj:
+            if pr[0] == "downcast":
+                if not isinstance(v, Variant) or v.name != pr[1]:
+                    raise Unsupported("downcast of a value that is not a known %s variant" % pr[1])
+                v = Tup([v.value])
+                continue
             if pr[0] == "index" or pr[0] == "cindex":
                 if not isinstance(v, Tup):
                     raise Unsupported("index into a non-array")
@@ -739,6 +748,13 @@ class Ctx:
             raise Unsupported("wrapping/unchecked arithmetic: " + rv)
         if rv.startswith("no_retag "):
             rv = rv[9:].strip()
+        m = re.match(r"^discriminant\((.*)\)$", rv)
+        if m:
+            l, proj = parse_place(m.group(1))
+            v = self.read_place(fr, l, proj)
+            if isinstance(v, Variant):
+                return I({"None": 0, "Some": 1, "Ok": 0, "Err": 1}.get(v.name, 0))
+            raise Unsupported("discriminant of a value that is not a known variant")
         m = re.match(r"^Len\((.*)\)$", rv)
         if m:
             l, proj = parse_place(m.group(1))
